@@ -79,7 +79,9 @@ class HBMonitor:
         oid = o.id
         where = (fr.fn, fr.pc - 1)
         hb.checked += 1
-        for w in range(off >> 3, (off + n + 7) >> 3):
+        # granularity: aligned 4-byte units (two adjacent ints are different memory locations; fields narrower
+        # than that sharing a unit are conservatively treated as one location)
+        for w in range(off >> 2, (off + n + 3) >> 2):
             key = (oid, w)
             e = sh.get(key)
             if e is None:
@@ -116,7 +118,7 @@ class HBMonitor:
             import sys
             sys.stderr.write('HBDEBUG cur=%d vc=%r other=%d shadow=%r\n' % (ex.st.cur, ex.st.hb.vc, ot, [(k, (v[0], v[1], [(r[0], r[1]) for r in v[3]])) for k, v in ex.st.hb.shadow.items() if k[0] == o.id and k[1] == w]))
         ex.violation('race', 'data-race',
-                     'unsynchronised %s by thread %d at %s conflicts with %s by thread %d at %s on %s object %s word %d'
+                     'unsynchronised %s by thread %d at %s conflicts with %s by thread %d at %s on %s object %s 4-byte unit %d'
                      % ('write' if write else 'read', ex.st.cur, fmt(where),
                         'write' if other_write else 'read', ot, fmt(oloc), o.kind, name, w))
 
@@ -424,6 +426,16 @@ def install(ex, reg):
                 t.status = 'done'
                 t.frames = []
                 t.pred = None
+        # the child process after fork(): only the calling thread exists, and everything any thread of the
+        # parent did before the fork happened before whatever the child does (race monitor: join all clocks)
+        hb = st.hb
+        if hb is not None:
+            mine = hb.vc.get(st.cur)
+            if mine is not None:
+                for ot, v in hb.vc.items():
+                    for k, c in v.items():
+                        if mine.get(k, 0) < c:
+                            mine[k] = c
 
     @reg('sx_async_flag')
     def _async_flag(ex, fr, a, d):
